@@ -228,7 +228,9 @@ def session_case(rng, tier):
         w.emit('fm_stat')
     # ---- read-write: prior content intact (old time stamps are not refreshed by an open), and the same calls go through
     if rng.random() < 0.7:
-        w.emit('fm_prep settime %s %d' % (rng.choice(['updated_at', 'updated_at', 'created_at']), 1000000000 + rng.randrange(100000)))
+        # any stamp is a stamp: the epoch itself, times before it, the far future
+        w.emit('fm_prep settime %s %d' % (rng.choice(['updated_at', 'updated_at', 'created_at', 'created_at']),
+                                          rng.choice([1000000000 + rng.randrange(100000)] * 3 + [0, 1, -1, -86400, 2 ** 31, 4102444800])))
         w.emit('fm_stat')
         if rng.random() < 0.5:
             w.emit('fm_open ro %s 0' % rng.choice(COMPR)); w.emit('fm_snap'); w.emit('fm_close'); w.emit('fm_stat')
